@@ -929,6 +929,60 @@ func genMarkCycle(r *coqfmt.Rand, id int, pf profile) Case {
 	return c
 }
 
+// genTrimmedParent builds "a branch hanging off the tip of a trimmed branch": a main chain, a side
+// branch S1, a branch S2 forking from the interior of S1; the header of S1 right above S2's fork
+// point is marked invalid (S1 now ends exactly where S2 starts); the state is persisted and
+// reloaded (or cleaned); S2 must still be there - lookups, extension, overtaking.
+func genTrimmedParent(r *coqfmt.Rand, id int, pf profile) Case {
+	c := Case{ID: id, Mask: pf.mask, Twin: -1, Note: "branch-off-the-tip-of-a-trimmed-branch"}
+	c.MaxDepth = 144
+	t0 := uint32(1231006505)
+	c.Hdrs = make([]PlanHdr, 1)
+	height := []int{0}
+	add := func(p int, bits uint32) int {
+		c.Hdrs = append(c.Hdrs, PlanHdr{P: p, Bits: bits, T: t0 + uint32(600*(height[p]+1)) + uint32(r.Intn(500))})
+		height = append(height, height[p]+1)
+		return len(c.Hdrs) - 1
+	}
+	obs := func(op Op) { c.Ops = append(c.Ops, op, Op{K: "observe"}) }
+	c.Ops = append(c.Ops, Op{K: "observe"})
+	main := []int{0}
+	for i := 10 + r.Intn(8); i > 0; i-- {
+		main = append(main, add(main[len(main)-1], 0x1d00ffff))
+		obs(Op{K: "submit", I: main[len(main)-1]})
+	}
+	s1 := []int{main[2+r.Intn(4)]}
+	for i := 4 + r.Intn(3); i > 0; i-- {
+		s1 = append(s1, add(s1[len(s1)-1], 0x1d00ffff))
+		obs(Op{K: "submit", I: s1[len(s1)-1]})
+	}
+	k := 1 + r.Intn(len(s1)-2) // S2 forks from s1[k], an interior header of S1
+	s2 := add(s1[k], 0x1d00ffff)
+	obs(Op{K: "submit", I: s2})
+	for i := r.Intn(3); i > 0; i-- {
+		s2 = add(s2, 0x1d00ffff)
+		obs(Op{K: "submit", I: s2})
+	}
+	obs(Op{K: "mark", I: s1[k+1]})
+	switch {
+	case pf.save > 0 && pf.load > 0:
+		c.Ops = append(c.Ops, Op{K: "save"})
+		obs(Op{K: "load", D: 10000})
+	case pf.clean > 0:
+		obs(Op{K: "clean", D: 10000})
+	}
+	// S2 grows with heavy headers until it overtakes the main chain
+	for i := 0; i < 12 && height[s2] <= height[main[len(main)-1]]; i++ {
+		s2 = add(s2, 0x1c0fffff)
+		obs(Op{K: "submit", I: s2})
+	}
+	if pf.save > 0 && pf.load > 0 && r.Chance(1, 2) {
+		c.Ops = append(c.Ops, Op{K: "save"})
+		obs(Op{K: "load", D: 10000})
+	}
+	return c
+}
+
 func genOvertake(r *coqfmt.Rand, id int, pf profile) Case {
 	c := Case{ID: id, Mask: pf.mask, Twin: -1, Note: "overtake-after-maintenance"}
 	c.MaxDepth = []int{3, 5, 144, 144}[r.Intn(4)]
@@ -1014,6 +1068,9 @@ func genCase(r *coqfmt.Rand, id int, pf profile, size int) Case {
 	}
 	if pf.mark > 0 && pf.save > 0 && pf.load > 0 && r.Chance(1, 10) {
 		return genMarkCycle(r, id, pf)
+	}
+	if pf.mark > 0 && (pf.clean > 0 || (pf.save > 0 && pf.load > 0)) && r.Chance(1, 12) {
+		return genTrimmedParent(r, id, pf)
 	}
 	c := Case{ID: id, Mask: pf.mask, Twin: -1}
 	c.MaxDepth = []int{0, 1, 2, 3, 5, 144, 144}[r.Intn(7)]
